@@ -842,6 +842,9 @@ func (in *Interp) indexSet(n *rt.Node, val Value) *RErr {
 				return in.err(kn, "map key must be a string")
 			}
 			if last {
+				if Reaches(val, c) {
+					return in.err(kn, "a list or map cannot be stored inside itself")
+				}
 				c.Set(ks, val)
 				return nil
 			}
@@ -860,6 +863,9 @@ func (in *Interp) indexSet(n *rt.Node, val Value) *RErr {
 				return in.err(kn, "list index out of range")
 			}
 			if last {
+				if Reaches(val, c) {
+					return in.err(kn, "a list or map cannot be stored inside itself")
+				}
 				c.E[p] = val
 				return nil
 			}
